@@ -276,6 +276,19 @@ fn body_split_navigate(m: &mut M, q: P, hold_left: bool) -> Vec<(P, u32)> {
             extra.push((p, 11));
         }
         h.poke();
+        // take the value out of the node and put it back (the node stays in the tree)
+        if let Some(old) = nv.remove() {
+            h.poke();
+            assert!(nv.value().is_none());
+            assert_eq!(nv.set(old), Ok(None));
+        }
+        h.poke();
+        for x in nv.values_mut() {
+            *x += 13;
+        }
+        let under: Vec<P> = nv.iter_mut().map(|(p, _)| *p).collect();
+        extra.extend(under.into_iter().map(|p| (p, 13)));
+        h.poke();
     }
     h.log.extend(extra);
     h.log
